@@ -21,6 +21,8 @@ def run(chk):
     core_rules.sizing_loop_cap(chk, "C10")
     core_rules.writable_history_views(chk, "C10")
     from .algo_equiv import check_equiv
+    from .c14 import random_sample
+    random_sample(chk)  # sampling never asks for more names than are tradable (random.sample would raise)
     from .c15 import REFS as WEIGH_REFS
     src_, what_ = WEIGH_REFS["WeighRandomly"]
     check_equiv(chk, "C15.R1", "bt/algos.py", "WeighRandomly", "__call__", src_, "documented-weights", "WeighRandomly: %s" % what_, limit=16)
